@@ -106,8 +106,9 @@ func stringGetOwnProperty(obj *object, name string) *property {
 	}
 	// TODO Test a string of length >= +int32 + 1?
 	if index := stringToArrayIndex(name); index >= 0 {
-		if chr := stringAt(obj.stringValue(), int(index)); chr != utf8.RuneError {
-			return &property{stringValue(string(chr)), 0o010}
+		// Compare against the length: U+FFFD is a valid character, not an out-of-range marker.
+		if str := obj.stringValue(); str != nil && index < int64(str.Length()) {
+			return &property{stringValue(string(str.At(int(index)))), 0o010}
 		}
 	}
 	return nil
